@@ -32,30 +32,75 @@ ALLOWED = (ParserException, ValueError)
 
 
 def _horner(chars: Tuple[Any, ...], allow_dot: bool) -> SymNum:
-    """Python's contract for digit/dot strings: ValueError unless >= 1 digit and <= 1 dot; exact value."""
+    """Python's int()/float() on a string of symbolic characters, for the ASCII subset of their grammar:
+    optional surrounding whitespace, optional sign, digits, for float one optional '.' and an optional exponent
+    e[+-]digits; ValueError otherwise.  Underscores, 'inf'/'nan' words and non-ASCII characters are not modelled
+    (Unsupported: such a path is inconclusive, never a verdict)."""
+    from ..symstr import SymStr as _S
+
     c = Ctx.cur
     assert c is not None
+    cs = list(chars)
+    for ch in cs:
+        if c.branch(z3.Or(ch >= 128, ch == 95)):
+            raise Unsupported("int()/float() of a string with '_' or non-ASCII characters")
+    while cs and c.branch(_S.is_space(cs[0])):
+        cs.pop(0)
+    while cs and c.branch(_S.is_space(cs[-1])):
+        cs.pop()
+    negative = False
+    if cs and c.branch(z3.Or(cs[0] == 43, cs[0] == 45)):
+        negative = c.branch(cs[0] == 45)
+        cs.pop(0)
     digits = 0
-    dot_at: Optional[int] = None
+    dot_seen = False
     val: Any = z3.RealVal(0)
     scale = Fraction(1)
-    for i, ch in enumerate(chars):
-        if c.branch(ch == 46):
-            if dot_at is not None or not allow_dot:
-                raise ValueError("could not convert string to float")
-            dot_at = i
+    i = 0
+    exponent: Optional[int] = None
+    while i < len(cs):
+        ch = cs[i]
+        if c.branch(z3.And(ch >= 48, ch <= 57)):
+            digits += 1
+            d = z3.ToReal(ch - 48)
+            if not dot_seen:
+                val = val * 10 + d
+            else:
+                scale = scale / 10
+                val = val + d * z3.RealVal(str(scale))
+            i += 1
             continue
-        if not c.branch(z3.And(ch >= 48, ch <= 57)):
-            raise ValueError("invalid literal")
-        digits += 1
-        d = z3.ToReal(ch - 48)
-        if dot_at is None:
-            val = val * 10 + d
-        else:
-            scale = scale / 10
-            val = val + d * z3.RealVal(str(scale))
+        if allow_dot and not dot_seen and c.branch(ch == 46):
+            dot_seen = True
+            i += 1
+            continue
+        if allow_dot and digits > 0 and c.branch(z3.Or(ch == 101, ch == 69)):
+            # exponent: [sign] digits to the end
+            j = i + 1
+            esign = 1
+            if j < len(cs) and c.branch(z3.Or(cs[j] == 43, cs[j] == 45)):
+                esign = -1 if c.branch(cs[j] == 45) else 1
+                j += 1
+            if j >= len(cs):
+                raise ValueError("could not convert string to float")
+            e = 0
+            for k in range(j, len(cs)):
+                if not c.branch(z3.And(cs[k] >= 48, cs[k] <= 57)):
+                    if c.branch(z3.Or(z3.And(cs[k] >= 65, cs[k] <= 90), z3.And(cs[k] >= 97, cs[k] <= 122))):
+                        raise ValueError("could not convert string to float")
+                    raise ValueError("could not convert string to float")
+                e = e * 10 + int(c.realize(z3.ToReal(cs[k] - 48)))
+            exponent = esign * e
+            break
+        if c.branch(z3.Or(z3.And(ch >= 65, ch <= 90), z3.And(ch >= 97, ch <= 122))) and allow_dot and digits == 0 and not dot_seen:
+            raise Unsupported("float() of a word (inf / nan spellings are not modelled)")
+        raise ValueError("invalid literal")
     if digits == 0:
         raise ValueError("could not convert string to float")
+    if exponent is not None:
+        val = val * z3.RealVal(str(Fraction(10) ** exponent))
+    if negative:
+        val = -val
     return SymNum(val, not allow_dot)
 
 
@@ -122,8 +167,39 @@ def judge_contract(call: Any) -> Tuple[str, List[Tuple[str, str]]]:
     return "accept", [("malformed", p) for p in audit(tree)]
 
 
-def chars_worker(item: Tuple[int, Tuple[int, ...]]) -> Dict[str, Any]:
-    L, pre = item
+class _RefTok:
+    def __init__(self, i: int, ty: int):
+        self.i = i
+        self.type = ty
+
+
+def ref_accepts(chars: List[Any], ctx: Optional[Ctx]) -> str:
+    """Documented verdict for a string: 'accept' | 'reject' | 'unspecified' (reference tokenizer of C11 + reference
+    grammar of C03; literals must have >= 1 digit and <= 1 dot)."""
+    status, toks = TZ.ref_tokenize(chars, False, ctx, TZ.function_names())
+    if status == "error":
+        return "reject"
+    for ty, cs in toks:
+        if ty == T.Constant:
+            dots = sum(1 for c in cs if TZ.decide(ctx, c == 46))
+            if dots > 1 or dots == len(cs):
+                return "reject"
+    reftoks = [_RefTok(i % 10, ty) for i, (ty, cs) in enumerate(toks)]
+    verdict = PP.run_ref(reftoks, ctx)
+    return verdict[0]
+
+
+def concrete_acceptance(text: str) -> List[Tuple[str, str]]:
+    want = ref_accepts([ord(ch) for ch in text], None)
+    st, probs = judge_contract(lambda: ExpressionParser().parse(text))
+    if want != "unspecified" and st in ("accept", "reject") and st != want:
+        return [("acceptance", f"the parser {st}s {text!r} but the documented grammar {want}s it")]
+    return []
+
+
+def chars_worker(item: Any) -> Dict[str, Any]:
+    L, pre = item[0], item[1]
+    alts: Dict[int, List[int]] = item[2] if len(item) > 2 else {}
     st = Stats()
     classes = TZ.char_classes()
     part = _part(st)
@@ -132,10 +208,15 @@ def chars_worker(item: Tuple[int, Tuple[int, ...]]) -> Dict[str, Any]:
         s = fresh_string(L)
         for i, k in enumerate(pre):
             ctx.add(classes[k](s.chars[i]))
+        for i, codes in alts.items():
+            ctx.add(z3.Or([s.chars[i] == c for c in codes]))
         parser = ExpressionParser()
         parser.tokenizer.functions = SymKeyDict(parser.tokenizer.functions)
         with string_shims():
             status, problems = judge_contract(lambda: parser.parse(s))
+        want = ref_accepts(list(s.chars), ctx)
+        if want != "unspecified" and status in ("accept", "reject") and status != want:
+            problems = problems + [("acceptance", f"the parser {status}s but the documented grammar {want}s")]
         text = s.concrete(ctx.ensure_model()) if problems or ctx.stats.paths % 211 == 0 else None
         return status, problems, text
 
@@ -153,6 +234,7 @@ def chars_worker(item: Tuple[int, Tuple[int, ...]]) -> Dict[str, Any]:
             part["proved"] += 1
             if text is not None:
                 st2, p2 = judge_contract(lambda: ExpressionParser().parse(text))
+                p2 = p2 + concrete_acceptance(text)
                 if p2 or st2 != status:
                     part["engine_mismatch"] += 1
                     part["mismatch_samples"].append(f"engine: {status} without problems, concrete parse({text!r}): {st2} {p2}")
@@ -160,9 +242,11 @@ def chars_worker(item: Tuple[int, Tuple[int, ...]]) -> Dict[str, Any]:
                     part["validated"] += 1
             continue
         st2, p2 = judge_contract(lambda: ExpressionParser().parse(text))
+        p2 = p2 + concrete_acceptance(text)
         hit = [p for p in p2 if p[0] in {q[0] for q in problems}]
         if hit:
-            part["violations"].append(Violation("C10", hit[0][0], {"fault": hit[0][0], "level": "characters"},
+            owner = "C03" if hit[0][0] == "acceptance" else "C10"
+            part["violations"].append(Violation(owner, hit[0][0], {"fault": hit[0][0], "level": "characters"},
                                                 f"parse({text!r}) {hit[0][1]}",
                                                 {"kind": "text", "text": text, "codepoints": [ord(c) for c in text],
                                                  "observed": hit[0][1]}))
@@ -375,12 +459,13 @@ def replay_record(rec: Dict[str, Any]) -> Tuple[bool, str]:
     if rec["kind"] == "text":
         text = "".join(chr(c) for c in rec["codepoints"])
         st, p = judge_contract(lambda: ExpressionParser().parse(text))
+        p = p + concrete_acceptance(text)
         return bool(p), f"parse({text!r}): {p}"
     msg = concrete_state(rec["mode"], rec["kinds"], rec["extra"])
     return bool(msg), msg
 
 
-def extend(rep: Report, tier: str) -> None:
+def extend(rep: Report, tier: str, prop: str = "C10") -> None:
     Lmax = 3 if tier == "quick" else 4
     ncls = len(TZ.char_classes())
     items: List[Any] = []
@@ -388,7 +473,16 @@ def extend(rep: Report, tier: str) -> None:
         split = min(L, 2)
         for pre in itertools.product(range(ncls), repeat=split):
             items.append(("chars", (L, pre)))
-    Nq = 3 if tier == "quick" else 4
+    # near-miss spellings of registered function names: every upper/lower-case variant, called with one free character
+    for name in TZ.function_names():
+        n = len(name)
+        case = {i: sorted({ord(ch.lower()), ord(ch.upper())}) for i, ch in enumerate(name)}
+        call = dict(case)
+        call.update({n: [ord("(")], n + 2: [ord(")")]})
+        items.append(("chars", (n + 3, (), call)))
+        items.append(("chars", (n + 1, (), dict(case))))
+    rep.bounds["function_name_variants"] = "every upper/lower-case spelling of each registered function name, as name(c) and name+c"
+    Nq = (3 if tier == "quick" else 4) if prop == "C10" else 0
     for N in range(1, Nq + 1):
         for pre in itertools.product(PP.KINDS, repeat=min(N, 1)):
             items.append(("state", ("havoc", N, pre)))
@@ -398,8 +492,9 @@ def extend(rep: Report, tier: str) -> None:
     rep.bounds["sticky_state"] = (f"query of <= {Nq} token kinds after (a) a parse of any 2-token input or of the same input on the same parser, "
                                   f"(b) havoc: every per-parse attribute {instance_attrs()} overwritten with arbitrary values "
                                   "(current_token of any kind incl. EOF/Invalid, stale token lists, None)")
-    rep.stubs.append("float()/int() of a symbolic digit string inside mathy_core.tokenizer: ValueError unless >=1 digit and "
-                     "<=1 dot (int: no dot), else the exact value by Horner's rule")
+    rep.stubs.append("float()/int() of a symbolic string inside mathy_core.tokenizer: Python's grammar for the ASCII subset "
+                     "(whitespace, sign, digits, one dot, exponent), exact value by Horner's rule, ValueError otherwise; "
+                     "'_', inf/nan words and non-ASCII characters are not modelled (such paths are inconclusive)")
     rep.functions += ["Tokenizer.tokenize (characters)", "coerce_to_number", "ExpressionParser.clear_cache"]
     rep.explanation += (
         " Character level: the public parse(text) on strings of solver-variable code points (tokenizer and parser together); "
@@ -412,6 +507,7 @@ def extend(rep: Report, tier: str) -> None:
 
     for status, item, res in pmap(dispatch, items, budget_s=300 if tier == "quick" else 720, chunk=4):
         if status == "ok":
+            res["violations"] = [v for v in res["violations"] if v.prop == prop]
             rep.absorb(res)
         elif status == "skipped":
             rep.skipped += 1
